@@ -94,8 +94,15 @@ impl Serialize for V {
             V::Some(v) => s.serialize_some(&**v),
             V::Newtype(v) => s.serialize_newtype_struct("Nt", &**v),
             V::Seq(items) => {
-                // unknown length for odd sizes: both entry points of the compound state machine
-                let mut q = s.serialize_seq(if items.len() % 2 == 1 { None } else { Some(items.len()) })?;
+                // unknown length for odd sizes and for every other empty sequence (an iterator that turns out
+                // to yield nothing): all entry points of the compound state machine
+                static EMPTY: std::sync::atomic::AtomicUsize = std::sync::atomic::AtomicUsize::new(0);
+                let unknown = if items.is_empty() {
+                    EMPTY.fetch_add(1, std::sync::atomic::Ordering::Relaxed) % 2 == 0
+                } else {
+                    items.len() % 2 == 1
+                };
+                let mut q = s.serialize_seq(if unknown { None } else { Some(items.len()) })?;
                 for i in items {
                     q.serialize_element(i)?;
                 }
@@ -109,7 +116,13 @@ impl Serialize for V {
                 q.end()
             }
             V::Map(entries) => {
-                let mut m = s.serialize_map(if entries.len() == 1 { None } else { Some(entries.len()) })?;
+                static EMPTY_MAP: std::sync::atomic::AtomicUsize = std::sync::atomic::AtomicUsize::new(0);
+                let unknown = if entries.is_empty() {
+                    EMPTY_MAP.fetch_add(1, std::sync::atomic::Ordering::Relaxed) % 2 == 0
+                } else {
+                    entries.len() == 1
+                };
+                let mut m = s.serialize_map(if unknown { None } else { Some(entries.len()) })?;
                 for (k, v) in entries {
                     if entries.len() == 2 {
                         m.serialize_key(k)?;
